@@ -429,6 +429,21 @@ package hrpc
 // a check-and-put is the put it wraps plus its condition (C05): the condition names the put's own row and the family,
 // qualifier and comparator given at construction, with comparison EQUAL; it is sent as plain protobuf (no cellblocks: the
 // condition lives in this message only) and never travels in a multi
+// "never travels in a multi" is decided at construction (C12): the CheckAndPut that NewCheckAndPut returns answers
+// SkipBatch() with true - the flag must be set on the Mutate the result embeds, not on some other copy of it - so that
+// SendBatch's validation (canBatch) rejects a batch that contains one; sent in a multi, only the put would travel and
+// the server would apply it unconditionally
+//@ func hrpc.(*Mutate).SkipBatch
+//@   requires m != nil
+//@   modifies nothing
+//@   ensures[C12] r0 == m.skipbatch
+//@ func hrpc.(*Mutate).setSkipBatch
+//@   requires m != nil
+//@   modifies F.hrpc.Mutate.skipbatch
+//@   ensures[C12] m.skipbatch == v
+//@ func hrpc.NewCheckAndPut
+//@   requires put != nil
+//@   ensures[C12] r1 == nil ==> r0 != nil && r0.Mutate != nil && r0.Mutate.skipbatch
 //@ func hrpc.(*CheckAndPut).CellBlocksEnabled
 //@   modifies nothing
 //@   ensures[C05] !r0
